@@ -401,8 +401,57 @@ def check_c12(pid, tier, seed, rep):
         rep.violation("corr-%d" % i, dict(correspondence="coq/VarPoolRun.v: serve differs from the real VarPool", history=hs[i], implementation=outs[i],
                                          theorem="Properties/C12.v: C12_fresh is about a model that no longer matches var_pool.go", disagreeing=len(mism)),
                       "allocator model and implementation differ on %d histories, e.g. %s -> %s" % (len(mism), hs[i]["reqs"][:5], outs[i][:5]), True)
+    # end to end: identifiers declared in generated functions vs the user's package-level names (go/ast scopes)
+    import stage_n, stage_s
+    bandparse = vlib.build_tool("bandparse")
+    e2e = dict(packages=0, functions=0, identifiers=0)
+    dirs = []
+    N = stage_n.stage(seed, tier)
+    dirs += [os.path.join(N["srcdir"], r["dir"]) for r in N["records"] if not r["expect"] and r["gen_rc"] == 0]
+    S = stage_s.stage(seed, tier)
+    dirs += sorted({os.path.join(S["srcdir"], r["pkg"]) for r in S["records"] if r["kind"] == "valid" and r["id"] and r["rc"] == 0})
+    for d in dirs:
+        gofiles = sorted(f for f in os.listdir(d) if f.endswith(".go") and not f.startswith("zz_"))
+        rc, out, err = vlib.run([bandparse] + [os.path.join(d, f) for f in gofiles], timeout=120)
+        if rc != 0:
+            continue
+        parsed = json.loads(out)
+        user = set()
+        for f, rec in parsed.items():
+            if not f.endswith("_band.go"):
+                user |= set(rec.get("top_names") or [])
+        e2e["packages"] += 1
+        for f, rec in parsed.items():
+            if not f.endswith("_band.go"):
+                continue
+            aliases = [im["name"] for im in rec["imports"] if im["name"]]
+            for fn in rec["funcs"]:
+                names = [p["name"] for p in fn["params"]] + [v["name"] for v in fn["vars"]]
+                for th in fn["threads"]:
+                    for op in th:
+                        if op["op"] in ("call", "field") and (op.get("define") or not fn["has_var"]):
+                            names += [x for x in op.get("lhs", []) if x != "_" and x != op.get("err")]
+                        if op["op"] == "vardecl":
+                            names.append(op["name"])
+                names = [x for x in names if x != "_"]
+                e2e["functions"] += 1
+                e2e["identifiers"] += len(names)
+                probs = []
+                dup = sorted({x for x in names if names.count(x) > 1})
+                if dup:
+                    probs.append("identifier(s) %s declared twice in %s" % (dup, fn["name"]))
+                for x in names + aliases:
+                    if x in GO_KEYWORDS or x in GO_PREDECLARED:
+                        probs.append("generated identifier %s is a keyword/predeclared identifier" % x)
+                    if x in user:
+                        probs.append("generated identifier %s is already declared at package level in the user's package" % x)
+                if probs and nviol < 4:
+                    nviol += 1
+                    rep.violation("e2e-%s-%s" % (os.path.basename(d), fn["name"]), dict(package_dir=d, function=fn["name"], declared=names, import_aliases=aliases, problems=probs,
+                                                                                       how="cd <package_dir> && kessoku <file>.go; inspect the identifiers declared in the generated function"),
+                                  "%s %s: %s" % (os.path.basename(d), fn["name"], probs[0]))
     lens = [len(h["reqs"]) for h in hs]
-    cov.update(programs=len(hs), disagreements_checked=len(hs), correspondence_disagreements=len(mism), trusted_base=TRUSTED + ["translator gentables (go/ast) for the reserved-word lists"],
+    cov.update(end_to_end=e2e, programs=len(hs), disagreements_checked=len(hs), correspondence_disagreements=len(mism), trusted_base=TRUSTED + ["translator gentables (go/ast) for the reserved-word lists"],
                input_distribution=dict(histories=len(hs), requests=sum(lens), max_len=max(lens), with_pre=sum(1 for h in hs if h["pre"]),
                                        kinds={k: sum(1 for h in hs for r in h["reqs"] if r[0] == k) for k in ("name", "get", "chan")},
                                        suffixed_outputs=sum(1 for o in outs for x in o if x[-1:].isdigit())),
@@ -543,7 +592,84 @@ def check_c11(pid, tier, seed, rep):
     return cov
 
 
-CHECKS = {"C11": check_c11, "C09": check_c09, "C10": check_c10, "C12": check_c12, "C15": check_c15, "C16": check_c16}
+KNOWN_VET = [
+    ("KF-C04-7", r"declared and not used: ctx\b"),
+    ("KF-C04-2", r"cannot use nil as \S+ value in return statement"),
+]
+
+
+def check_c04(pid, tier, seed, rep):
+    """Compilability: freshness/import/definedness theorems + go vet on every generated package (naming and type streams, S packages)."""
+    import stage_s, stage_n
+    from concurrent.futures import ThreadPoolExecutor
+    regen_table("reserved", "Reserved_gen.v")
+    cov = prove(pid, rep)
+    open_ids = {k["id"] for k in vlib.known_findings() if k["status"] == "open" and k["property"] == pid}
+    N = stage_n.stage(seed, tier)
+    nviol = 0
+    kinds = {}
+    for r in N["records"]:
+        kinds[r["meta"]["kind"]] = kinds.get(r["meta"]["kind"], 0) + 1
+        pdir = os.path.join(N["srcdir"], r["dir"])
+        if r["expect"]:
+            if r["gen_rc"] == 0 and r["vet_rc"] not in (0, None) and re.search(r["meta"]["signature"], r["vet"]) and r["expect"] in open_ids:
+                rep.known_finding(r["expect"], "reproducer %s: %s" % (r["name"], (re.search(r["meta"]["signature"], r["vet"]).group(0))[:120]))
+            elif r["gen_rc"] == 0 and r["vet_rc"] not in (0, None):
+                nviol += 1
+                rep.violation("known-%s" % r["name"], dict(package_dir=pdir, vet=r["vet"], expected_signature=r["meta"]["signature"]),
+                              "%s fails to compile with an error outside its recorded signature: %s" % (r["name"], r["vet"][-250:]))
+            continue
+        if r["gen_rc"] != 0:
+            continue      # a refused input is not a C04 matter
+        bad = None
+        if r["vet_rc"] != 0:
+            bad = "user package + generated file do not type-check: %s" % r["vet"].strip()[-400:]
+        elif r.get("run_rc"):
+            bad = "generated injector misbehaves at run time (shadowed package-level name?): %s" % r.get("run_err", "")[-300:]
+        if bad and nviol < 5:
+            nviol += 1
+            rep.violation("pkg-%s" % r["name"], dict(package_dir=pdir, meta=r["meta"], vet=r["vet"], generated=r.get("band"), how="cd <package_dir> && kessoku k.go && go vet ."),
+                          "%s (%s): %s" % (r["name"], r["meta"]["kind"], bad))
+    # every package of the static stage must type-check too
+    S = stage_s.stage(seed, tier)
+    pk = sorted({r["pkg"] for r in S["records"] if r["kind"] == "valid" and r["id"] and r["rc"] == 0})
+    def vet(name):
+        d = os.path.join(S["srcdir"], name)
+        rc, o, e = vlib.run(["go", "vet", "."], cwd=d, env=vlib.goenv(), timeout=600)
+        return name, rc, (o + e)
+    vetted = 0
+    with ThreadPoolExecutor(max_workers=8) as ex:
+        for name, rc, out in ex.map(vet, pk):
+            vetted += 1
+            if rc == 0:
+                continue
+            lines = [l for l in out.splitlines() if re.search(r"\.go:\d+:\d+:", l)]
+            unknown = []
+            for l in lines:
+                hit = [kid for kid, pat in KNOWN_VET if re.search(pat, l) and kid in open_ids]
+                if hit:
+                    rep.known_finding(hit[0], "%s: %s" % (name, l.strip()[-120:]))
+                else:
+                    unknown.append(l)
+            if (unknown or not lines) and nviol < 5:
+                nviol += 1
+                rep.violation("spkg-%s" % name, dict(package_dir=os.path.join(S["srcdir"], name), vet=out[-2000:]),
+                              "package %s of the declaration stream does not type-check: %s" % (name, (unknown or [out[-300:]])[0][-300:]))
+    # surface disagreements on := / = (model of buildAssignmentStatement)
+    surf = [(r, [p for p in r["problems"] if p.startswith("surface:") and "assigned with" in p]) for r in S["records"]]
+    surf = [(r, w) for r, w in surf if w]
+    if surf and not nviol:
+        r, why = surf[0]
+        rep.violation("corrS-%d" % r["id"], dict(correspondence="assignment forms differ from the model", first_case=dict(pkg=r["pkg"], injector=r["name"], why=why)),
+                      "emitted assignment forms differ from the model on %d declarations" % len(surf), True)
+    cov.update(programs=len(N["records"]) + vetted, disagreements_checked=len(N["records"]) + vetted, evaluations=len(N["records"]) + vetted,
+               input_distribution=dict(naming_type_stream=kinds, declaration_stream_packages=vetted),
+               samples=[dict(package=r["name"], types=r["meta"].get("types"), vet_rc=r["vet_rc"]) for r in N["records"] if r["meta"]["kind"] == "types"][:3],
+               trusted_base=TRUSTED + ["go vet (go/types) decides whether a package compiles"])
+    return cov
+
+
+CHECKS = {"C04": check_c04, "C11": check_c11, "C09": check_c09, "C10": check_c10, "C12": check_c12, "C15": check_c15, "C16": check_c16}
 for _p in ("C01", "C02", "C03", "C05", "C06", "C07", "C08"):
     CHECKS[_p] = check_layer_ab
 
